@@ -190,7 +190,8 @@ def check(rep, tier, seed, driver):
                 "implementation's pre-state, histories generated against a live archive so that 30% of the objectives sit exactly at, one "
                 "ulp above or one ulp below the targeted cell's current threshold; Grid/CVT(kd,brute,chunk)/Sliding, float32/float64; "
                 "non-trivial = a batch in which >= 2 members share a measure point AND >= 1 objective placed at/around a live threshold; "
-                "distinct by hash of (spec, ops)")
+                "distinct by hash of (spec, ops)" 
+                "; (c) add([x]) vs add_single(x) for float64 objectives around a threshold and float64 measures whose float32 rounding lies in another cell")
     cases = au.load_corpus("C02")
     rep.count("corpus_cases", len(cases))
     for k in range(n):
